@@ -195,3 +195,125 @@ pub fn record_diagram(a: &Value, tr: &mut Tr, st: &mut RuleStats) {
     let bad: Vec<Value> = [bad_v, bad_h].concat();
     tr.emit(json!({"k": "rej", "n": rej_v + rej_h, "bad": bad}));
 }
+
+// ---------------------------------------------------------------------------------------------
+// GENERIC-PHASE tier (`--generic N`, C04 "to floating-point tolerance"): every rule x every argument tuple on diagrams whose
+// phases are not multiples of pi/4.  Accepted: the unchecked rule runs on a clone and the harness compares pre and post with
+// the float reference evaluator (refeval.rs; 1e-9) and logs the boolean `close` -> Trace_Rules SoundFloat / NoPanic.
+// Rejected: the checked form must return false and leave the graph unchanged (PartialEq of the backend AND equality of the
+// abs JSON), reported per diagram in `rejf` -> RejectIsNoopFloat.
+//   begin {what: "generic", pre}
+//   rulef {rule, args, be, res: ok|panic|check_panic, close, approx, changed}
+//   rejf  {n, bad: [[rule, args, what], ..]}
+// ---------------------------------------------------------------------------------------------
+
+fn run_backend_f<G: GraphLike + PartialEq>(a: &Value, be: &str, pre: &[crate::refeval::C], st: &mut RuleStats) -> (Vec<Value>, usize, Vec<Value>) {
+    use crate::refeval::{abs_f, close, den_bits, ref_den};
+    let g0: G = crate::refeval::build_f(a);
+    let a0 = abs(&g0);
+    let mut names: Vec<V> = g0.vertices().collect();
+    names.sort();
+    let top = names.last().copied().unwrap_or(0);
+    names.push(top + 1);
+    names.push(top + 6);
+    let mut tuples: Vec<(&str, Vec<V>)> = vec![];
+    for r in RULES1 {
+        for &x in &names {
+            tuples.push((r, vec![x]));
+        }
+    }
+    for r in RULES2 {
+        for &x in &names {
+            for &y in &names {
+                tuples.push((r, vec![x, y]));
+            }
+        }
+    }
+    let (mut evs, mut bad, mut nrej) = (vec![], vec![], 0usize);
+    for (r, args) in tuples {
+        st.tuples += 1;
+        match guarded(|| check(r, &g0, &args)) {
+            Err(msg) => evs.push(json!({"k": "rulef", "be": be, "rule": r, "args": args, "res": "check_panic", "msg": msg})),
+            Ok(true) => {
+                st.accepted += 1;
+                *st.per_rule.entry(r.to_string()).or_insert(0) += 1;
+                let mut g1 = g0.clone();
+                match guarded(|| unchecked(r, &mut g1, &args)) {
+                    Err(msg) => evs.push(json!({"k": "rulef", "be": be, "rule": r, "args": args, "res": "panic", "msg": msg})),
+                    Ok(()) => {
+                        let post = abs_f(&g1);
+                        if den_bits(&post) > crate::refeval::MAX_BITS {
+                            evs.push(json!({"k": "rulef", "be": be, "rule": r, "args": args, "res": "toobig"}));
+                            continue;
+                        }
+                        let ok = close(&ref_den(&post), pre, 1e-9);
+                        // the checked form must accept too and produce the same diagram (scalar compared as a float)
+                        let mut g2 = g0.clone();
+                        if let Some(res) = guarded(|| checked(r, &mut g2, &args)).ok().flatten() {
+                            if !res || abs(&g2) != abs(&g1) {
+                                bad.push(json!([r, args, "checked form disagrees with check+unchecked"]));
+                            }
+                        }
+                        evs.push(json!({"k": "rulef", "be": be, "rule": r, "args": args, "res": "ok", "close": ok,
+                                        "approx": crate::absg::sc_is_approx(g1.scalar()), "changed": abs(&g1) != a0}));
+                    }
+                }
+            }
+            Ok(false) => {
+                st.rejected += 1;
+                nrej += 1;
+                let mut g2 = g0.clone();
+                match guarded(|| checked(r, &mut g2, &args)) {
+                    Err(_) => bad.push(json!([r, args, "checked form panicked on rejected arguments"])),
+                    Ok(Some(true)) => bad.push(json!([r, args, "checked form returned true after check rejected"])),
+                    Ok(Some(false)) => {
+                        if g2 != g0 || abs(&g2) != a0 {
+                            bad.push(json!([r, args, "graph changed by rejected rule"]));
+                        }
+                    }
+                    Ok(None) => {}
+                }
+            }
+        }
+    }
+    (evs, nrej, bad)
+}
+
+pub fn record_generic_diagram(a: &Value, tr: &mut Tr, st: &mut RuleStats) {
+    tr.group();
+    tr.emit(json!({"k": "begin", "what": "generic", "pre": a}));
+    let pre = crate::refeval::ref_den(a);
+    let (ev, rej_v, bad_v) = run_backend_f::<quizx::vec_graph::Graph>(a, "vec", &pre, st);
+    let (eh, rej_h, bad_h) = run_backend_f::<quizx::hash_graph::Graph>(a, "hash", &pre, st);
+    let strip = |v: &Value| {
+        let mut v = v.clone();
+        v["be"] = json!("");
+        if v.get("msg").is_some() {
+            v["msg"] = json!("");
+        }
+        v
+    };
+    let same = ev.len() == eh.len() && ev.iter().zip(eh.iter()).all(|(x, y)| strip(x) == strip(y));
+    for mut t in ev {
+        if same {
+            t["be"] = json!("both");
+        }
+        tr.emit(t);
+    }
+    if !same {
+        for t in eh {
+            tr.emit(t);
+        }
+    }
+    let bad: Vec<Value> = [bad_v, bad_h].concat();
+    tr.emit(json!({"k": "rejf", "n": rej_v + rej_h, "bad": bad}));
+}
+
+pub fn record_generic(n: usize, seed: u64, tr: &mut Tr, st: &mut RuleStats) -> usize {
+    let mut r = crate::gens::rng(seed ^ 0x6e7e);
+    for i in 0..n {
+        let a = crate::gens::generic_diagram(&mut r, i);
+        record_generic_diagram(&a, tr, st);
+    }
+    n
+}
